@@ -30,6 +30,9 @@ def other_bins():
 def plan(tier, seed):
     n = 1 if tier == "quick" else 6
     runs = []
+    import glob
+    for f in sorted(glob.glob(os.path.join(vlib.VERIF, "corpus", "world", "*.ops"))):
+        runs.append(("h_world", ["run", f], False))
     for rep in range(n):
         s = seed * 100 + rep
         runs.append(("h_world", ["gen", str(s), "400", "60"], False))
